@@ -145,6 +145,7 @@ AllClauses(x, ev) ==
       [] ev.e = "ret"   -> RetClauses(x, ev)
       [] ev.e = "lasso" -> LassoClauses(x, ev)
       [] ev.e = "present" -> <<>>
+      [] ev.e = "born" -> <<>>
       [] ev.e = "endpresent" ->
            \* after tracker.evaluate(batch) returned, the reported best is at least as good as EVERY individual
            \* evaluated so far (whether the tracker or a step-like direct evaluator call evaluated it)
